@@ -224,7 +224,9 @@ func inObs(m *Machine, fr *frame, fn *ssa.Function, a []Value) Value {
 	return nil
 }
 
-// UFPred(name, s): an uninterpreted predicate over the bytes of s (one function per name and length).
+// UFPred(name, s): an uninterpreted predicate over the bytes of s (one function per name and
+// length). Every application is remembered so that a counterexample carries the model's
+// function table and the native replay can answer the same way.
 func inUFPred(m *Machine, fr *frame, fn *ssa.Function, a []Value) Value {
 	name := a[0].(Str).S
 	s := a[1].(Str)
@@ -232,10 +234,20 @@ func inUFPred(m *Machine, fr *frame, fn *ssa.Function, a []Value) Value {
 	for i := range s.S {
 		args[i] = s.byteTerm(i)
 	}
+	var t *Term
 	if len(args) == 0 {
-		return Bool{T: bvVarBool(fmt.Sprintf("uf_%s_0", name))}
+		t = bvVarBool(fmt.Sprintf("uf_%s_0", name))
+	} else {
+		t = mk("uf", 0, fmt.Sprintf("uf_%s_%d", name, len(args)), 0, args...)
 	}
-	return Bool{T: mk("uf", 0, fmt.Sprintf("uf_%s_%d", name, len(args)), 0, args...)}
+	m.ufApps = append(m.ufApps, ufApp{name: name, arg: s, t: t})
+	return Bool{T: t}
+}
+
+type ufApp struct {
+	name string
+	arg  Str
+	t    *Term
 }
 
 func bvVarBool(name string) *Term { return mk("var", 0, name, 0) }
